@@ -17,7 +17,7 @@ StepOK(ev) ==
 
 Step == /\ l <= Len(Trace)
         /\ StepOK(Trace[l])
-        /\ M' = (IF Trace[l].ev = "reset" THEN MInit ELSE Next(M, Trace[l]))
+        /\ M' = (IF Trace[l].ev = "reset" THEN MInit ELSE MNext(M, Trace[l]))
         /\ l' = l + 1
 
 Spec == Init /\ [][Step]_vars
